@@ -555,26 +555,120 @@ Qed.
 Lemma traverse_settled_mono t trav s : settled t s -> settled t (traverse trav s).
 Proof. intros H l Hl. apply traverse_keeps_settled. apply H. exact Hl. Qed.
 
-Lemma step_traverse tx tj o s : exists t, fst (step tx tj o s) = traverse t s.
-Proof. destruct o; cbn; [exists tx|exists tj|exists []|exists []|exists []|exists tx]; reflexivity. Qed.
+(* sofa data arrays: what XMI visits is what the traversal visits plus the arrays it did not find, each once *)
+Lemma add_array_in acc a l : In l (add_array acc a) <-> In l acc \/ l = a.
+Proof.
+  unfold add_array. destruct (existsb (N.eqb a) acc) eqn:E.
+  - split; [auto|]. intros [H| ->]; [exact H|]. apply existsb_exists in E. destruct E as (x & Hx & Ex).
+    apply N.eqb_eq in Ex. subst x. exact Hx.
+  - rewrite in_app_iff. cbn [In]. intuition congruence.
+Qed.
+Theorem xmi_trav_in ta : forall tx l, In l (xmi_trav ta tx) <-> In l tx \/ In l ta.
+Proof.
+  unfold xmi_trav. induction ta as [|a r IH]; intros tx l; cbn [fold_left In]; [tauto|].
+  rewrite IH, add_array_in. intuition congruence.
+Qed.
+Lemma add_array_nodup acc a : NoDup acc -> NoDup (add_array acc a).
+Proof.
+  intros H. unfold add_array. destruct (existsb (N.eqb a) acc) eqn:E; [exact H|].
+  eapply Permutation_NoDup; [apply Permutation_cons_append|]. constructor; [|exact H].
+  intros Hx. assert (existsb (N.eqb a) acc = true) as C; [|congruence].
+  apply existsb_exists. exists a. split; [exact Hx|apply N.eqb_refl].
+Qed.
+Theorem xmi_trav_nodup ta : forall tx, NoDup tx -> NoDup (xmi_trav ta tx).
+Proof.
+  unfold xmi_trav. induction ta as [|a r IH]; intros tx H; cbn [fold_left]; [exact H|]. apply IH, add_array_nodup, H.
+Qed.
+Theorem xmi_trav_prefix ta : forall tx, exists extra, xmi_trav ta tx = tx ++ extra.
+Proof.
+  unfold xmi_trav. induction ta as [|a r IH]; intros tx; cbn [fold_left]; [exists []; rewrite app_nil_r; reflexivity|].
+  destruct (IH (add_array tx a)) as [e He]. rewrite He. unfold add_array. destruct (existsb (N.eqb a) tx).
+  - exists e. reflexivity.
+  - exists (a :: e). rewrite <- app_assoc. reflexivity.
+Qed.
 
-Definition trav_of (tx tj : list N) (k : op) : list N :=
-  match k with OXmi => tx | OJson => tj | _ => [] end.
+(* the JSON save with its leading sofa data arrays *)
+Theorem save_pre_nil trav s : save_pre [] trav s = save trav s.
+Proof. reflexivity. Qed.
+Theorem save_pre_state pre trav s : fst (save_pre pre trav s) = traverse (pre ++ trav) s.
+Proof. reflexivity. Qed.
+Theorem save_pre_idempotent pre trav s : save_pre pre trav (fst (save_pre pre trav s)) = save_pre pre trav s.
+Proof.
+  unfold save_pre. cbn [fst]. rewrite (traverse_settled (pre ++ trav) (traverse (pre ++ trav) s)) by apply traverse_settles.
+  reflexivity.
+Qed.
+Theorem save_pre_settled pre trav s : settled (pre ++ trav) s -> save_pre pre trav s = (s, doc_of_pre pre trav s).
+Proof. intros H. unfold save_pre. rewrite traverse_settled by assumption. reflexivity. Qed.
 
-Lemma step_doc tx tj o s d : snd (step tx tj o s) = Some d -> d = doc_of (trav_of tx tj o) (fst (step tx tj o s)).
+(* a structure of the store that a save visits is listed in its document: in particular every sofa data array is written by
+   EVERY XMI save and every JSON save, not only by the one that gives it its id *)
+Lemma id_of_in_labels l es : id_of l es <> None <-> In l (map e_lab es).
+Proof.
+  induction es as [|e r IH]; cbn [id_of map In]; [tauto|]. destruct (N.eqb (e_lab e) l) eqn:E.
+  - apply N.eqb_eq in E. split; [auto|discriminate].
+  - apply N.eqb_neq in E. rewrite IH. tauto.
+Qed.
+Lemma listed_in t s l i : In l t -> id_of l (st_entries s) = Some (Some i) -> In (l, i) (listed t s).
+Proof.
+  intros Hl Hi. unfold listed. apply in_flat_map. exists l. split; [exact Hl|]. rewrite Hi. left. reflexivity.
+Qed.
+Lemma visited_has_id t s l : In l t -> id_of l (st_entries s) <> None ->
+  exists i, id_of l (st_entries (traverse t s)) = Some (Some i).
+Proof.
+  intros Hl Hs. assert (S := traverse_settles t s l Hl).
+  assert (id_of l (st_entries (traverse t s)) <> None) as P.
+  { apply id_of_in_labels. rewrite save_keeps_labels. apply id_of_in_labels. exact Hs. }
+  destruct (id_of l (st_entries (traverse t s))) as [[i|]|]; [exists i; reflexivity|contradiction|contradiction].
+Qed.
+Theorem save_lists_visited t s l : In l t -> id_of l (st_entries s) <> None -> exists i, In (l, i) (snd (save t s)).
+Proof.
+  intros Hl Hs. destruct (visited_has_id t s l Hl Hs) as [i Hi]. exists i. unfold save, doc_of. cbn [snd].
+  eapply Permutation_in; [apply sort_by_permutation|]. apply listed_in; assumption.
+Qed.
+Theorem xmi_save_lists_arrays ta tx s a : In a ta -> id_of a (st_entries s) <> None ->
+  exists i, In (a, i) (snd (save (xmi_trav ta tx) s)).
+Proof. intros Ha. apply save_lists_visited. apply xmi_trav_in. right. exact Ha. Qed.
+Theorem json_save_lists_arrays ta tj s a : In a ta -> id_of a (st_entries s) <> None ->
+  exists i, In (a, i) (snd (save_pre ta tj s)).
+Proof.
+  intros Ha Hs. destruct (visited_has_id (ta ++ tj) s a (in_or_app _ _ _ (or_introl Ha)) Hs) as [i Hi]. exists i.
+  unfold save_pre, doc_of_pre. cbn [snd]. apply in_or_app. left. apply listed_in; assumption.
+Qed.
+
+Lemma step_traverse ta tx tj o s : exists t, fst (step ta tx tj o s) = traverse t s.
+Proof. destruct o; cbn; [exists (xmi_trav ta tx)|exists (ta ++ tj)|exists []|exists []|exists []|exists tx]; reflexivity. Qed.
+
+(* what a format visits, and the document it writes for a state *)
+Definition trav_of (ta tx tj : list N) (k : op) : list N :=
+  match k with OXmi => xmi_trav ta tx | OJson => ta ++ tj | _ => [] end.
+Definition fdoc_of (ta tx tj : list N) (k : op) (s : state) : list (N * Z) :=
+  match k with OJson => doc_of_pre ta tj s | _ => doc_of (trav_of ta tx tj k) s end.
+
+Lemma agree_app_l t1 t2 s1 s2 : agree (t1 ++ t2) s1 s2 -> agree t1 s1 s2.
+Proof. intros H l Hl. apply H. apply in_or_app. left. exact Hl. Qed.
+Lemma agree_app_r t1 t2 s1 s2 : agree (t1 ++ t2) s1 s2 -> agree t2 s1 s2.
+Proof. intros H l Hl. apply H. apply in_or_app. right. exact Hl. Qed.
+Lemma fdoc_of_agree ta tx tj k s1 s2 : agree (trav_of ta tx tj k) s1 s2 -> fdoc_of ta tx tj k s1 = fdoc_of ta tx tj k s2.
+Proof.
+  destruct k; cbn [fdoc_of trav_of]; intros H; try (apply doc_of_agree; exact H).
+  unfold doc_of_pre. rewrite (listed_agree _ _ _ (agree_app_l _ _ _ _ H)), (doc_of_agree _ _ _ (agree_app_r _ _ _ _ H)).
+  reflexivity.
+Qed.
+
+Lemma step_doc ta tx tj o s d : snd (step ta tx tj o s) = Some d -> d = fdoc_of ta tx tj o (fst (step ta tx tj o s)).
 Proof. destruct o; cbn; intros H; inversion H; reflexivity. Qed.
-Lemma step_settles tx tj o s : settled (trav_of tx tj o) (fst (step tx tj o s)).
+Lemma step_settles ta tx tj o s : settled (trav_of ta tx tj o) (fst (step ta tx tj o s)).
 Proof. destruct o; cbn; try (intros l []); apply traverse_settles. Qed.
 Lemma op_eqb_eq a b : op_eqb a b = true -> a = b.
 Proof. destruct a, b; cbn; congruence. Qed.
 
-Lemma docs_of_settled tx tj k ops : forall s, settled (trav_of tx tj k) s ->
-  forall d, In d (docs_of k tx tj ops s) -> d = doc_of (trav_of tx tj k) s.
+Lemma docs_of_settled ta tx tj k ops : forall s, settled (trav_of ta tx tj k) s ->
+  forall d, In d (docs_of k ta tx tj ops s) -> d = fdoc_of ta tx tj k s.
 Proof.
   induction ops as [|o r IH]; intros s H d Hd; [contradiction|]. cbn [docs_of] in Hd.
-  destruct (step_traverse tx tj o s) as [t Ht].
-  assert (D := step_doc tx tj o s). destruct (step tx tj o s) as [s' d0]. cbn [fst snd] in *. subst s'.
-  assert (A := doc_of_agree _ _ _ (traverse_agree_settled _ t s H)).
+  destruct (step_traverse ta tx tj o s) as [t Ht].
+  assert (D := step_doc ta tx tj o s). destruct (step ta tx tj o s) as [s' d0]. cbn [fst snd] in *. subst s'.
+  assert (A := fdoc_of_agree ta tx tj k _ _ (traverse_agree_settled _ t s H)).
   apply in_app_or in Hd. destruct Hd as [Hd|Hd].
   - destruct d0 as [d0|]; [|contradiction]. destruct (op_eqb o k) eqn:E; [|contradiction].
     apply op_eqb_eq in E. subst o. destruct Hd as [<-|[]]. rewrite (D d0 eq_refl). symmetry. exact A.
@@ -582,38 +676,56 @@ Proof.
 Qed.
 
 (* for every history, from every state: all documents of one format are one and the same document *)
-Theorem history_documents_repeat tx tj k ops : forall s d d',
-  In d (docs_of k tx tj ops s) -> In d' (docs_of k tx tj ops s) -> d = d'.
+Theorem history_documents_repeat ta tx tj k ops : forall s d d',
+  In d (docs_of k ta tx tj ops s) -> In d' (docs_of k ta tx tj ops s) -> d = d'.
 Proof.
   induction ops as [|o r IH]; intros s d d' Hd Hd'; [contradiction|]. cbn [docs_of] in Hd, Hd'.
-  assert (D := step_doc tx tj o s). assert (S := step_settles tx tj o s).
-  destruct (step tx tj o s) as [s' d0]. cbn [fst snd] in *.
+  assert (D := step_doc ta tx tj o s). assert (S := step_settles ta tx tj o s).
+  destruct (step ta tx tj o s) as [s' d0]. cbn [fst snd] in *.
   destruct d0 as [d0|]; [destruct (op_eqb o k) eqn:E|]; cbn [app] in Hd, Hd'; try (eapply IH; eassumption).
   apply op_eqb_eq in E. subst o.
-  assert (forall x, d0 = x \/ In x (docs_of k tx tj r s') -> x = doc_of (trav_of tx tj k) s') as All.
+  assert (forall x, d0 = x \/ In x (docs_of k ta tx tj r s') -> x = fdoc_of ta tx tj k s') as All.
   { intros x [<-|Hx]; [apply D; reflexivity|]. eapply docs_of_settled; eassumption. }
   rewrite (All d Hd), (All d' Hd'). reflexivity.
 Qed.
 
+(* ... and every one of them lists every sofa data array (of the store), from the first to the last *)
+Theorem history_documents_list_arrays ta tx tj k ops : forall s d a, k = OXmi \/ k = OJson ->
+  In d (docs_of k ta tx tj ops s) -> In a ta -> id_of a (st_entries s) <> None -> exists i, In (a, i) d.
+Proof.
+  induction ops as [|o r IH]; intros s d a Hk Hd Ha Hs; [contradiction|]. cbn [docs_of] in Hd.
+  destruct (step_traverse ta tx tj o s) as [t Ht].
+  assert (Hs' : id_of a (st_entries (fst (step ta tx tj o s))) <> None).
+  { rewrite Ht. apply id_of_in_labels. rewrite save_keeps_labels. apply id_of_in_labels. exact Hs. }
+  assert (Here : forall d0, snd (step ta tx tj o s) = Some d0 -> op_eqb o k = true -> exists i, In (a, i) d0).
+  { intros d0 E1 E2. apply op_eqb_eq in E2. subst o. destruct Hk as [-> | ->]; cbn in E1.
+    - inversion E1. apply xmi_save_lists_arrays; assumption.
+    - inversion E1. apply json_save_lists_arrays; assumption. }
+  destruct (step ta tx tj o s) as [s' d0]. cbn [fst snd] in *.
+  apply in_app_or in Hd. destruct Hd as [Hd|Hd]; [|eapply IH; eassumption].
+  destruct d0 as [d0|]; [|contradiction]. destruct (op_eqb o k) eqn:E; [|contradiction].
+  destruct Hd as [<-|[]]. apply Here; reflexivity.
+Qed.
+
 (* and the queries answer the same in every state of the history *)
-Theorem history_queries_unchanged tx tj labs ops : forall s,
+Theorem history_queries_unchanged ta tx tj labs ops : forall s,
   (forall l, In l labs -> exists i, id_of l (st_entries s) = Some (Some i)) ->
-  Forall (fun s' => query s' labs = query s labs) (states_of tx tj ops s).
+  Forall (fun s' => query s' labs = query s labs) (states_of ta tx tj ops s).
 Proof.
   induction ops as [|o r IH]; intros s H; [constructor|]. cbn [states_of].
-  destruct (step_traverse tx tj o s) as [t Ht]. rewrite Ht.
+  destruct (step_traverse ta tx tj o s) as [t Ht]. rewrite Ht.
   assert (Q := queries_unchanged_by_save t s labs H).
   constructor; [exact Q|]. rewrite <- Q. apply IH.
   intros l Hl. destruct (H l Hl) as [i Hi]. exists i. apply save_keeps_ids. exact Hi.
 Qed.
 
 (* every state of a history extends the initial one: labels kept, ids only added, from the generator's range *)
-Theorem history_preserves_content tx tj ops : forall s,
+Theorem history_preserves_content ta tx tj ops : forall s,
   Forall (fun s' => st_next s <= st_next s' /\
-                    Forall2 (extends (st_next s) (st_next s')) (st_entries s) (st_entries s')) (states_of tx tj ops s).
+                    Forall2 (extends (st_next s) (st_next s')) (st_entries s) (st_entries s')) (states_of ta tx tj ops s).
 Proof.
   induction ops as [|o r IH]; intros s; [constructor|]. cbn [states_of].
-  destruct (step_traverse tx tj o s) as [t Ht]. rewrite Ht.
+  destruct (step_traverse ta tx tj o s) as [t Ht]. rewrite Ht.
   assert (C := save_preserves_content t s). assert (Nx := traverse_next t s).
   constructor; [split; assumption|].
   eapply Forall_impl; [|apply IH]. intros s' [H1 H2]. cbn beta. split; [lia|].
